@@ -324,6 +324,10 @@ def check_C06(tier, seed):
     F.execute_and_validate("C06", exe, scs, out, "c06-d2", TCFG)
     scs = random_scripts(rng, 100 if tier == "quick" else 1500, policies, ("T", "X"), orders=6 if tier == "quick" else 20, max_defs=8)
     F.execute_and_validate("C06", exe, scs, out, "c06-rnd", TCFG)
+    # the order in which the registration objects of a real program are constructed is the order of appearance in the translation
+    # unit: generated programs shuffle their definitions and put the class registrations before or after methods and definitions
+    lat = F.gen_registries("GenLat_P4any.cfg", out, module="GenLat.tla")
+    real_class_programs("C06", lat, rng, out, 8 if tier == "quick" else 80, tier)
     if scs:
         F.selftest_corruption(exe, scs[1], out, mutate_first("table", flip_table_row), "one outcome altered in a permuted registration", TCFG)
     return F.report("C06", tier, seed, out, t0, LEVEL,
@@ -584,15 +588,17 @@ def real_class_programs(pid, regs, rng, out, nprog, tier, per=8, staged=None):
             shapes = {}
             for m, vp in methods:
                 if len(vp) == 1:
-                    shapes[m] = rng.choice(["V", "V", "NV", "VN", "W", "WN", "P", "NPN"])
+                    shapes[m] = rng.choice(["V", "V", "NV", "VN", "W", "WN", "P", "NPN", "Q", "S", "C", "NQ", "CN"])
                 else:
-                    shapes[m] = rng.choice(["VV", "VNV", "NVVN", "PV", "VP", "PNP", "WV", "WNV", "WP", "NWNP"])
+                    shapes[m] = rng.choice(["VV", "VNV", "NVVN", "PV", "VP", "PNP", "WV", "WNV", "WP", "NWNP", "QQ", "QNQ", "SC", "CV", "VS", "QP", "SNW"])
             # front-end variants: how classes are registered, how methods are declared and called, how definitions are
             # attached (macros, containers, the core API with its four ways of getting a next pointer, member functions),
             # and which policy the scenario lives in (scenarios of one policy form one registry)
             # policies: 0 default, 1 derived from it by rebind, 2 hand-assembled with a pointer map, 3 custom ids that differ
             # only above bit 31 (perfect hash), 4 deferred custom ids (pointer map)
-            style = {"pol": rng.choice([0, 0, 1, 2, 3, 4, 5]) if si >= 2 and not staged else 0, "reg": {}, "cuts": {}, "meth": {}, "def": {}, "call": {}}
+            rng.shuffle(dd)     # the order of the definitions in the source is the order of their registration
+            style = {"pol": rng.choice([0, 0, 1, 2, 3, 4, 5]) if si >= 2 and not staged else 0, "reg": {}, "cuts": {}, "meth": {}, "def": {}, "call": {},
+                     "late_reg": rng.random() < 0.4}
             for i, st in enumerate(statements):
                 style["reg"][i] = rng.choice(["classes", "classes", "use", "decl", "nested", "nested"])
                 if style["reg"][i] == "nested" and len(st) > 1:
